@@ -1125,6 +1125,15 @@ impl Mig {
             }
             diff.retain(|p| !p.contains("/global_index"));
         }
+        if t == Target::HubDistributor {
+            // C20: ids and start times of the epochs (and with them the due time of the next one) survive
+            // the conversion of the stored epochs
+            ctx.eval("C20");
+            let clock: Vec<&String> = diff.iter().filter(|p| p.contains("/start_time") || p.ends_with("/id") || p.contains("/epoch_config")).collect();
+            if !clock.is_empty() {
+                ctx.fail("C20", "epoch_clock_survives_migration", "distributor", None, format!("after migrating the fee distributor from {} the epoch clock changed: {clock:?}: {} -> {}", self.cfg.version, before["epochs"], after["epochs"]));
+            }
+        }
         if !diff.is_empty() {
             ctx.fail("MIG", "observable_state_preserved", &format!("{t:?}"), None, format!("changed: {diff:?}: {before} -> {after}"));
         }
@@ -2104,8 +2113,14 @@ impl Scenario for Mig {
     type Cfg = Cfg;
     type Step = Step;
 
-    fn gen_cfg(rng: &mut Rng, _prop: &str, _tier: Tier, idx: u64) -> Cfg {
-        gen_cfg_impl(rng, idx)
+    fn gen_cfg(rng: &mut Rng, prop: &str, _tier: Tier, idx: u64) -> Cfg {
+        let mut c = gen_cfg_impl(rng, idx);
+        if prop == "C20" {
+            // C20 only concerns the fee distributor's epoch clock
+            c.target = Target::HubDistributor;
+            c.version = version_for(rng, Target::HubDistributor);
+        }
+        c
     }
 
     fn max_steps(_cfg: &Cfg) -> usize {
